@@ -28,7 +28,7 @@ levels = {
  "C16": (FE, "every single fault position (open/create/read/readdir/write/mkdir/rename/remove, stat excluded) of every modifying command, injected with strace (calls on files with stable names by path-restricted tracing, calls on temporary files by per-thread ordinal compared modulo their names; a fault that lands on another repository call is judged where it happened), judged by TLC against C16_NoCrash, C16_HonestSuccess (all functional clauses + same result, journal included, as the fault-free run), C16_Connected, C16_NoBadAdvance", "6 C16"),
  "C17": (MC, "no index path inside .goit, no ignored path staged or listed, nothing hidden without .goitignore, metadata bytes untouched by restore/reset --hard; argument forms '.', parent directory, ignored path itself, nested; clauses judged by TLC on every step", "6 C17"),
  "C18": (MC, "CLI grammar (22 sub-command forms x flag subsets x 0..3 arguments from valid/missing/surplus/malformed/non-existent/metacharacter classes) against states reached by the model tour and random histories, incl. fresh repository, emptied index, empty snapshot, renamed branch: result in {ok, refused}, refused => byte-identical repository", "6 C18"),
- "C19": (FE, "every truncation, every single-byte deletion, single-byte substitutions, field-level damage of the text files (fields shortened, lengthened, split, joined), object swaps, crafted objects and generator-made arbitrary bytes for object, index, HEAD, branch, config and reflog files of repositories Goit produced; every read-only command, cat-file -t/-p, restore, reset --hard run on each under a timeout, an address-space limit and a peak-RSS bound; judged by TLC (C19_Total, C19_NoWrongData incl. the kind cat-file -t prints)", "6 C19"),
+ "C19": (FE, "every truncation, every single-byte deletion, single-byte substitutions, field-level damage of the text files (fields shortened, lengthened, split, joined), object swaps, crafted objects and generator-made arbitrary bytes for object, index, HEAD, branch, config and reflog files of repositories Goit produced; every read-only command, cat-file -t/-p, restore, reset --hard and commit run on each under a timeout, an address-space limit and a peak-RSS bound; judged by TLC (C19_Total, C19_NoWrongData incl. the kind cat-file -t prints)", "6 C19"),
  "C20": (MC, "config write = exact update of the parsed file of that scope, other scope untouched, file parses strictly; author of the next commit = local-before-global identity; commit gated on both name and e-mail; values with '=', brackets, '#', ';', quotes, every other punctuation character, non-ASCII, values around 4096 and 8192 bytes", "6 C20"),
 }
 technique = {
